@@ -8,7 +8,8 @@ From Dashu Require Import Base.Prelude Base.Words Int.RingSpec Int.RingSign Int.
   Int.DivWordModel Int.DivWordProofs Int.RingMulW Int.RingMulWProofs Int.RingOpsW Int.RingOpsWProofs
   Int.RingScratch Int.RingScratchProofs Int.RingPowW Int.RingPowWProofs Int.RingTopW Int.RingPrim Int.RingPrimProofs
   Int.WordPrims Int.WordKernelSpec Int.WordKernelRun Int.WordKernelsGenProofs Int.WordKernelSpecProofs Int.WordKernelRunProofs Int.WordKernelsGenTransfer
-  Int.RingOpsW4 Int.RingOpsW4Proofs Int.RingPowShift.
+  Int.RingOpsW4 Int.RingOpsW4Proofs Int.RingPowShift Int.RingPrimW4 Int.RingPrimW4Proofs.
+From Dashu Require Int.IoSpec Int.IoModel Int.IoBytes.
 From Dashu Require Int.BitsKernels Int.ReprOrdModel.
 From DashuGen Require Import SignTables Params MulMemory WordKernelsGen.
 Open Scope Z_scope.
@@ -674,3 +675,26 @@ Proof. exact pow_shift_before_fix_refuted. Qed.
 Print Assumptions C01_pow_shift_before_fix_refuted.
 Example C01_pow_shift_nonvacuous : pow_shifted (pow_shift (2 ^ 64) 5 3) 3 5 = Ok ((3 * 2 ^ 3) ^ 5) /\ pow_shift (2 ^ 64) (2 ^ 59) 32 = Panic AllocateTooMuch.
 Proof. split; reflexivity. Qed.
+
+(** ==== round 4: Repr::from_unsigned at word level (primitive operands wider than a double word go through their
+    little-endian bytes and Repr::from_le_bytes_large::<false>; reachable with u128 on the 32-bit build) *)
+Theorem C01_canonical_unique : forall w, 8 <= w -> forall r1 r2, twf w r1 -> twf w r2 -> repr_value w r1 = repr_value w r2 -> r1 = r2.
+Proof. exact twf_unique. Qed.
+Print Assumptions C01_canonical_unique.
+
+(** one word per chunk of WORD_BYTES bytes + the zero-padded remainder: the number C07's model of Repr::from_le_bytes gives, canonical *)
+Theorem C01_from_le_bytes_large_word_level : forall w, 8 <= w -> forall k, (1 <= k)%nat -> w = 8 * Z.of_nat k ->
+  forall bs, IoBytes.bytes_ok bs ->
+  repr_value w (from_le_bytes_large_w w bs) = IoModel.from_le_bytes_asis w bs /\ twf w (from_le_bytes_large_w w bs).
+Proof. exact from_le_bytes_large_w_ok. Qed.
+Print Assumptions C01_from_le_bytes_large_word_level.
+
+(** hence the word-level from_unsigned IS the by-value model the primitive-operand theorems (C01_ubig_prim, C01_ibig_prim) use *)
+Theorem C01_from_unsigned_word_level : forall w, 8 <= w -> forall k, (1 <= k)%nat -> w = 8 * Z.of_nat k ->
+  forall nbytes x, 0 <= x < 256 ^ Z.of_nat nbytes -> repr_from_unsigned_w w nbytes x = repr_from_unsigned w x.
+Proof. exact repr_from_unsigned_w_eq. Qed.
+Print Assumptions C01_from_unsigned_word_level.
+Example C01_from_unsigned_word_level_nonvacuous :
+  32 = 8 * Z.of_nat 4 /\ 0 <= 2 ^ 100 + 5 < 256 ^ Z.of_nat 16 /\ repr_from_unsigned_w 32 16 (2 ^ 100 + 5) = Large [5; 0; 0; 16] /\
+  repr_from_unsigned_w 32 16 (2 ^ 64 - 1) = Small (2 ^ 64 - 1).
+Proof. repeat split; try reflexivity; cbn; lia. Qed.
